@@ -40,6 +40,12 @@ PCs        == {"format", "resolve", "check_main", "s_open", "s_validate", "s_ser
 
 NFaults(iv, un, ft) == (IF iv # "none" THEN 1 ELSE 0) + (IF un # "none" THEN 1 ELSE 0) + (IF ft.kind # "none" THEN 1 ELSE 0)
 UsedNames(q) == {"main"} \cup {SubName(x) : x \in Range(q)}
+HasCollision(q) == \/ \E a, b \in 1..Len(q) : a # b /\ SubName(q[a]) = SubName(q[b])
+                   \/ \E a \in 1..Len(q) : SubName(q[a]) = "main"
+\* saved in place: the directory holds exactly the files the config was loaded from
+InplacePre(q) == [f \in Files |-> IF f = "main" THEN "main"
+                                  ELSE IF \E x \in Range(q) : SubName(x) = f THEN SubKey(CHOOSE x \in Range(q) : SubName(x) = f)
+                                  ELSE "absent"]
 PreOK(q, ft, pre) ==
   /\ \A f \in Files \ UsedNames(q) : pre[f] \in (IF Level = 1 THEN {"absent"} ELSE {"absent", "old"})
   /\ ft.kind = "noparent" => \A f \in Files : pre[f] = "absent"
@@ -50,32 +56,35 @@ vars == <<sc, st>>
 Init == \E mf \in BOOLEAN, ow \in BOOLEAN, q \in SubChoices, iv \in InvalidAt, un \in UnserAt, ft \in Faults :
           /\ NFaults(iv, un, ft) <= MaxFaults
           /\ mf \/ \A x \in Range(q) : SubKind(x) = "cfg"       \* a relative path value saved elsewhere in one file: not a save() matter
-          /\ \E pre \in [Files -> PreKinds] :
-               /\ PreOK(q, ft, pre)
-               /\ sc = [multifile |-> mf, overwrite |-> ow, subs |-> q, invalid |-> iv, unser |-> un, fault |-> ft, pre |-> pre]
-               /\ st = Start(sc)
+          /\ \E ip \in BOOLEAN :
+               /\ ip => (~HasCollision(q) /\ ft.kind # "noparent")
+               /\ \E pre \in (IF ip THEN {InplacePre(q)} ELSE [Files -> PreKinds]) :
+                    /\ ip \/ PreOK(q, ft, pre)
+                    /\ sc = [multifile |-> mf, overwrite |-> ow, subs |-> q, invalid |-> iv, unser |-> un, fault |-> ft,
+                             pre |-> pre, inplace |-> ip]
+                    /\ st = Start(sc)
 
-At(p, Op(_, _)) == st.pc = p /\ st' = Op(sc, st) /\ UNCHANGED sc
-A_CheckFormat   == At("format", CheckFormat)
-A_ResolveTarget == At("resolve", ResolveTarget)
-A_CheckMain     == At("check_main", CheckMain)
-A_SOpen         == At("s_open", SOpen)
-A_SValidate     == At("s_validate", SValidate)
-A_SSerialize    == At("s_serialize", SSerialize)
-A_SWrite        == At("s_write", SWrite)
-A_MClone        == At("m_clone", MClone)
-A_MValidate     == At("m_validate", MValidate)
-A_MSubNext      == At("m_sub", MSubNext)
-A_MSubResolve   == At("m_sub_resolve", MSubResolve)
-A_MSubCheck     == At("m_sub_check", MSubCheck)
-A_MSubDump      == At("m_sub_dump", MSubDump)
-A_MSubOpen      == At("m_sub_open", MSubOpen)
-A_MSubWrite     == At("m_sub_write", MSubWrite)
-A_MSubReplace   == At("m_sub_replace", MSubReplace)
-A_MOpen         == At("m_open", MOpen)
-A_MSerialize    == At("m_serialize", MSerialize)
-A_MWrite        == At("m_write", MWrite)
-A_MFlush        == At("m_flush", MFlush)
+\* one TLC action per step of save() (so that -coverage counts each of them)
+A_CheckFormat   == st.pc = "format" /\ st' = CheckFormat(sc, st) /\ UNCHANGED sc
+A_ResolveTarget == st.pc = "resolve" /\ st' = ResolveTarget(sc, st) /\ UNCHANGED sc
+A_CheckMain     == st.pc = "check_main" /\ st' = CheckMain(sc, st) /\ UNCHANGED sc
+A_SOpen         == st.pc = "s_open" /\ st' = SOpen(sc, st) /\ UNCHANGED sc
+A_SValidate     == st.pc = "s_validate" /\ st' = SValidate(sc, st) /\ UNCHANGED sc
+A_SSerialize    == st.pc = "s_serialize" /\ st' = SSerialize(sc, st) /\ UNCHANGED sc
+A_SWrite        == st.pc = "s_write" /\ st' = SWrite(sc, st) /\ UNCHANGED sc
+A_MClone        == st.pc = "m_clone" /\ st' = MClone(sc, st) /\ UNCHANGED sc
+A_MValidate     == st.pc = "m_validate" /\ st' = MValidate(sc, st) /\ UNCHANGED sc
+A_MSubNext      == st.pc = "m_sub" /\ st' = MSubNext(sc, st) /\ UNCHANGED sc
+A_MSubResolve   == st.pc = "m_sub_resolve" /\ st' = MSubResolve(sc, st) /\ UNCHANGED sc
+A_MSubCheck     == st.pc = "m_sub_check" /\ st' = MSubCheck(sc, st) /\ UNCHANGED sc
+A_MSubDump      == st.pc = "m_sub_dump" /\ st' = MSubDump(sc, st) /\ UNCHANGED sc
+A_MSubOpen      == st.pc = "m_sub_open" /\ st' = MSubOpen(sc, st) /\ UNCHANGED sc
+A_MSubWrite     == st.pc = "m_sub_write" /\ st' = MSubWrite(sc, st) /\ UNCHANGED sc
+A_MSubReplace   == st.pc = "m_sub_replace" /\ st' = MSubReplace(sc, st) /\ UNCHANGED sc
+A_MOpen         == st.pc = "m_open" /\ st' = MOpen(sc, st) /\ UNCHANGED sc
+A_MSerialize    == st.pc = "m_serialize" /\ st' = MSerialize(sc, st) /\ UNCHANGED sc
+A_MWrite        == st.pc = "m_write" /\ st' = MWrite(sc, st) /\ UNCHANGED sc
+A_MFlush        == st.pc = "m_flush" /\ st' = MFlush(sc, st) /\ UNCHANGED sc
 Next == \/ A_CheckFormat \/ A_ResolveTarget \/ A_CheckMain
         \/ A_SOpen \/ A_SValidate \/ A_SSerialize \/ A_SWrite
         \/ A_MClone \/ A_MValidate \/ A_MSubNext \/ A_MSubResolve \/ A_MSubCheck \/ A_MSubDump \/ A_MSubOpen
@@ -98,13 +107,13 @@ KnownAtomicityDevs == {"single-open-before-dump", "multi-written-before-main-dum
 InvAllOrNothingModuloKnown == Terminal(st) => (AllOrNothing(sc, Outcome, st.fired, st.fs) \/ DevName(sc, st) \in KnownAtomicityDevs)
 \* C18, clause 3 -- violated exactly by file-name collisions (MC_Save_cex_rep.cfg expects the counterexample)
 InvSavedReparses == Terminal(st) => SavedReparses(sc, Outcome, st.fs)
-InvSavedReparsesModuloKnown == Terminal(st) => (SavedReparses(sc, Outcome, st.fs) \/ DevName(sc, st) = "multi-name-collision")
+InvSavedReparsesModuloKnown == Terminal(st) => (SavedReparses(sc, Outcome, st.fs) \/ DevName(sc, st) \in {"multi-name-collision", "inplace-content-emptied"})
 \* the reason the algorithm gives for a failure is one the scenario really contains; it succeeds only when none is there
 InvCauseSound == /\ st.pc = "failed" => st.cause \in Causes(sc, st.fired)
                  /\ st.pc = "done" => Causes(sc, st.fired) = {}
 \* a failure that is not one of the deviations leaves at most files that it legitimately wrote: nothing pre-existing is lost
 \* unless overwrite was requested
-InvOldDataKept == \A f \in Files : (sc.pre[f] = "old" /\ st.fs[f] # "old") => sc.overwrite
+InvOldDataKept == \A f \in Files : (IsFile(sc.pre[f]) /\ st.fs[f] # sc.pre[f]) => sc.overwrite
 \* what the repairs guarantee
 InvAtomicSingle == (Terminal(st) /\ ~sc.multifile) => AllOrNothing(sc, Outcome, st.fired, st.fs)
 InvMainNotEmptiedByBadConfig == (st.pc = "failed" /\ st.cause \in {"invalid", "unserialisable"} /\ ~Collision(sc)) => st.fs["main"] = sc.pre["main"]
@@ -112,7 +121,7 @@ InvMainNotEmptiedByBadConfig == (st.pc = "failed" /\ st.cause \in {"invalid", "u
 \* ------------------------------------------------------------------ emission of the behaviours to replay
 FsSeq(f) == LET q == SetToSeq(DOMAIN f) IN [j \in 1..Len(q) |-> <<q[j], f[q[j]]>>]
 ScJson == [multifile |-> sc.multifile, overwrite |-> sc.overwrite, subs |-> sc.subs, invalid |-> sc.invalid, unser |-> sc.unser,
-           fault |-> <<sc.fault.kind, sc.fault.n>>, pre |-> FsSeq(sc.pre)]
+           fault |-> <<sc.fault.kind, sc.fault.n>>, pre |-> FsSeq(sc.pre), inplace |-> sc.inplace]
 EmitBehaviour ==
   (Emit /\ Terminal(st)) =>
     PrintT(ToJson([sc |-> ScJson, out |-> Outcome, cause |-> st.cause, fired |-> st.fired, fs |-> FsSeq(st.fs),
